@@ -626,7 +626,7 @@ func e2eCrash(c *e2eCtx) error {
 	c.parallel(n, func(i int, r *rand.Rand) {
 		s, err := c.newScenario(i, r, proj.Opts{InScope: true, SmallBody: true, RootMain: r.Intn(3) == 0}, func(r *rand.Rand, old string) proj.Config {
 			cfg := randomConfig(r, old)
-			cfg.Threads = pick(r, []int{1, 1, 4})
+			cfg.Threads = pick(r, []int{1, 1, 2, 4}) // 2: more marked files than workers already in small projects
 			return cfg
 		})
 		if err != nil {
